@@ -25,6 +25,7 @@ from vsim.clock import SimClock  # noqa: E402
 from vsim.rng import Rng  # noqa: E402
 from vsim.scratch import Scratch  # noqa: E402
 from vsim.sched import ParallelSeams  # noqa: E402
+from vsim.fs import DirOrder  # noqa: E402
 
 PROPERTY = "C01"
 LEVEL = "exploration"
@@ -88,6 +89,13 @@ def generate(seed: int, tier: str) -> Dict[str, Any]:
                             "budgets": {"wall_ms": 2_000_000_000, "t1_pops": r.choice([None, 0, 1, 3]), "t1_iters": r.choice([0, 1, 50]),
                                         "t2_k": r.choice([0, 1, 2, 64]), "t3_ops": r.choice([0, 1, 3])}}
     ops = E.gen_ops(rng.stream("ops"), world, r.randint(2, 8), turn_ids=r.choice(["seq", "seq", "rand"]))
+    if r.chance(0.3):
+        # fresh process in the middle of the sequence: state comes back from the snapshot directory (E5 varies the order in
+        # which that directory is enumerated; tied time stamps are what a restore from backup / checkout leaves behind)
+        turn_idx = [i for i, o in enumerate(ops) if o["op"] == "turn"]
+        if len(turn_idx) >= 2:
+            at = r.choice(turn_idx[1:])
+            ops.insert(at, {"op": "restart", "tie_mtimes": r.chance(0.7)})
     # every turn carries the logical clock (ctx.now / ctx.now_ms): the property is stated for a given logical clock;
     # without one the engine documents a fall-back to the wall clock, which is not a reproducibility defect.
     return {"world": world, "cfg": raw, "ops": ops, "profile": r.choice(PROFILES), "clock_seed": int(r.u64() % (1 << 31)),
@@ -106,7 +114,7 @@ def run_env(program: Dict[str, Any], env: str) -> Dict[str, Any]:
     par = bool(((program["cfg"].get("perf") or {}).get("parallel") or {}).get("enabled"))
     sched_digest = None
     with Scratch() as root:
-        with E.EngineEnv(root, clock) as ee:
+        with E.EngineEnv(root, clock) as ee, DirOrder(root, int(program["clock_seed"]) if env == "E5" else None):
             run = E.EngineRun(program["world"], program["cfg"], ee)
             nontrivial = False
             if par:
@@ -192,6 +200,9 @@ def execute(program: Dict[str, Any]) -> Dict[str, Any]:
     if bool(((program["cfg"].get("perf") or {}).get("parallel") or {}).get("enabled")):
         envs["sched:a"] = run_env(program, "E4")
         envs["sched:b"] = run_env(program, "E4b")
+    if any(o.get("op") == "restart" for o in program["ops"]):
+        envs["dirorder"] = run_env(program, "E5")
+        stats["restart_runs"] = 1
     hs = str(program.get("hashseed", "1"))
     child = _CHILDREN.get(hs)
     if child is None:
